@@ -156,6 +156,274 @@ fn vxw_c19_rolling_logger() {
     println!("VXW-DONE {}", n);
 }
 
+// ---- archiving the full file fails persistently while appending still works ------------------------------------------
+// (log hardening with the append-only attribute, a log directory the service user may not modify, a collector holding the
+// file). The statement's bounds are unconditional ("however much is logged"): a write must never be appended to a file that
+// has already reached its limit, whether or not the full file could be moved away; and the file count must not grow.
+#[cfg(unix)]
+mod vx_block {
+    use std::os::raw::{c_char, c_ulong};
+    use std::os::unix::io::AsRawFd;
+    use std::path::Path;
+    extern "C" {
+        fn ioctl(fd: i32, req: c_ulong, ...) -> i32;
+        fn setfsuid(uid: u32) -> i32;
+        fn geteuid() -> u32;
+        fn chown(path: *const c_char, uid: u32, gid: u32) -> i32;
+    }
+    const FS_IOC_GETFLAGS: c_ulong = 0x8008_6601;
+    const FS_IOC_SETFLAGS: c_ulong = 0x4008_6602;
+    const FS_APPEND_FL: std::os::raw::c_long = 0x20;
+    pub const OTHER_UID: u32 = 54321;
+
+    pub fn is_root() -> bool {
+        unsafe { geteuid() == 0 }
+    }
+    /// chattr +a / -a
+    pub fn set_append_only(file: &Path, on: bool) -> bool {
+        let f = match std::fs::File::open(file) {
+            Ok(f) => f,
+            Err(_) => return false,
+        };
+        let mut flags: std::os::raw::c_long = 0;
+        if unsafe { ioctl(f.as_raw_fd(), FS_IOC_GETFLAGS, &mut flags as *mut std::os::raw::c_long) } != 0 {
+            return false;
+        }
+        if on {
+            flags |= FS_APPEND_FL;
+        } else {
+            flags &= !FS_APPEND_FL;
+        }
+        unsafe { ioctl(f.as_raw_fd(), FS_IOC_SETFLAGS, &flags as *const std::os::raw::c_long) == 0 }
+    }
+    pub fn give_away(path: &Path) -> bool {
+        let c = std::ffi::CString::new(path.to_string_lossy().as_bytes()).unwrap();
+        unsafe { chown(c.as_ptr(), OTHER_UID, OTHER_UID) == 0 }
+    }
+    /// file system identity of THIS thread (root: drops / regains the DAC capabilities with it)
+    pub fn fs_identity(uid: u32) {
+        unsafe {
+            setfsuid(uid);
+        }
+    }
+}
+
+#[cfg(unix)]
+#[derive(Clone, Copy, PartialEq, Debug)]
+enum Block {
+    AppendOnlyAttribute, // chattr +a on the current log file: appends work, rename / truncate / delete of it do not
+    ReadOnlyDirectory,   // the log directory is not writable for the (non-root) identity that logs; the current file is
+}
+
+#[cfg(unix)]
+struct Blocked {
+    how: Block,
+    dir: PathBuf,
+    current: PathBuf,
+    active: bool,
+}
+
+#[cfg(unix)]
+impl Blocked {
+    fn apply(how: Block, dir: &Path, current: &Path) -> Blocked {
+        use std::os::unix::fs::PermissionsExt;
+        let mut b = Blocked { how, dir: dir.to_path_buf(), current: current.to_path_buf(), active: false };
+        match how {
+            Block::AppendOnlyAttribute => {
+                b.active = vx_block::set_append_only(current, true);
+            }
+            Block::ReadOnlyDirectory => {
+                let mut ok = true;
+                if vx_block::is_root() {
+                    if current.exists() {
+                        ok = vx_block::give_away(current);
+                    }
+                }
+                ok = ok && fs::set_permissions(dir, fs::Permissions::from_mode(0o555)).is_ok();
+                if ok && vx_block::is_root() {
+                    vx_block::fs_identity(vx_block::OTHER_UID);
+                }
+                b.active = ok;
+            }
+        }
+        b
+    }
+    fn undo(&mut self) {
+        use std::os::unix::fs::PermissionsExt;
+        if !self.active {
+            return;
+        }
+        self.active = false;
+        match self.how {
+            Block::AppendOnlyAttribute => {
+                let _ = vx_block::set_append_only(&self.current, false);
+            }
+            Block::ReadOnlyDirectory => {
+                if vx_block::is_root() {
+                    vx_block::fs_identity(0);
+                }
+                let _ = fs::set_permissions(&self.dir, fs::Permissions::from_mode(0o755));
+            }
+        }
+    }
+}
+
+#[cfg(unix)]
+impl Drop for Blocked {
+    fn drop(&mut self) {
+        self.undo();
+    }
+}
+
+// does the mechanism do here what it is meant to do: appending to the current file works, moving it away does not
+#[cfg(unix)]
+fn block_works(how: Block) -> bool {
+    use std::io::Write;
+    let dir = unique_dir(&format!("probe_{:?}", how));
+    fs::create_dir_all(&dir).unwrap();
+    let cur = dir.join("p.log");
+    fs::write(&cur, b"x").unwrap();
+    let mut b = Blocked::apply(how, &dir, &cur);
+    let mut ok = b.active;
+    if ok {
+        let appended = fs::OpenOptions::new().append(true).open(&cur).and_then(|mut f| f.write_all(b"y")).is_ok();
+        let moved = fs::rename(&cur, dir.join("p.moved.log")).is_ok();
+        ok = appended && !moved;
+    }
+    b.undo();
+    let _ = fs::remove_dir_all(&dir);
+    ok
+}
+
+#[cfg(unix)]
+#[test]
+fn vxw_c19_rolling_logger_archive_fails() {
+    let name = "vxlog";
+    let cur_name = format!("{}.log", name);
+    // 40 and 44 writes; sizes 2..400 bytes through both entry points, one restart each
+    let cycle_a = [Op::Many(9), Op::Line(5), Op::Many3(30), Op::Many(120), Op::Line(90), Op::Many(1), Op::Many(60), Op::Line(1)];
+    let cycle_b = [Op::Many(400), Op::Line(400), Op::Many3(200), Op::Many(7), Op::Many(250), Op::Line(64), Op::Many(40), Op::Many(1), Op::Line(200), Op::Many3(1), Op::Many(33)];
+    let mut pat_a: Vec<Op> = Vec::new();
+    let mut pat_b: Vec<Op> = Vec::new();
+    for r in 0..5 {
+        pat_a.extend(cycle_a.iter().copied());
+        if r == 2 {
+            pat_a.push(Op::Restart);
+        }
+    }
+    for r in 0..4 {
+        pat_b.extend(cycle_b.iter().copied());
+        if r == 1 {
+            pat_b.push(Op::Restart);
+        }
+    }
+    let patterns: Vec<(&str, Vec<Op>)> = vec![("40 writes of 2..121 bytes", pat_a), ("44 writes of 2..603 bytes", pat_b)];
+    let mut n = 0u64;
+    let mut usable = 0;
+    for how in [Block::AppendOnlyAttribute, Block::ReadOnlyDirectory] {
+        if !block_works(how) {
+            println!("VXW-NOTE C19 rolling logger, archive step made to fail by {:?}: not available here (file system / privileges), skipped", how);
+            continue;
+        }
+        usable += 1;
+        for max_count in [1u16, 2, 3] {
+            for max_size in [1u64, 50, 200] {
+                let mc = max_count as usize;
+                // current file when the block starts: below the limit / at the limit / beyond it by less than one earlier write
+                for cur in [max_size - 1, max_size, max_size + 20] {
+                    // the block is there from the start, or begins after 7 ordinary writes (files archived by the logger itself exist)
+                    for block_after in [0usize, 7] {
+                        for (pname, ops) in patterns.iter() {
+                            n += 1;
+                            let dir = unique_dir("blocked");
+                            fs::create_dir_all(&dir).unwrap();
+                            for i in 0..mc - 1 {
+                                let f = dir.join(format!("{}.2001-01-01T00.00.00.{:03}-{}.log", name, i, 978307200000000000u64 + i as u64));
+                                fs::write(f, vec![b'a'; (max_size as usize).min(64)]).unwrap();
+                            }
+                            fs::write(dir.join(&cur_name), vec![b'c'; cur as usize]).unwrap();
+                            let mut logger = RollingLogger::create_new(dir.clone(), name.to_string(), max_size, max_count);
+                            let mut guard: Option<Blocked> = None;
+                            let mut history: Vec<String> = Vec::new();
+                            let mut problem: Option<String> = None;
+                            for (step, op) in ops.iter().enumerate() {
+                                if step == block_after {
+                                    let g = Blocked::apply(how, &dir, &dir.join(&cur_name));
+                                    if !g.active {
+                                        println!("VXW-NOTE C19 archive-fails case skipped: {:?} could not be applied", how);
+                                        break;
+                                    }
+                                    guard = Some(g);
+                                    history.push(format!("[from here on the current file cannot be archived: {:?}]", how));
+                                }
+                                history.push(op_str(op));
+                                let before = listing(&dir);
+                                let w: u64 = match op {
+                                    Op::Many(s) => {
+                                        let _ = logger.write_many(vec!["m".repeat(*s)]);
+                                        *s as u64 + 1
+                                    }
+                                    Op::Many3(s) => {
+                                        let _ = logger.write_many(vec!["m".repeat(*s), "m".repeat(*s), "m".repeat(*s)]);
+                                        3 * (*s as u64 + 1)
+                                    }
+                                    Op::Line(s) => {
+                                        let _ = logger.write(log::Level::Info, "l".repeat(*s));
+                                        34 + *s as u64 + 1
+                                    }
+                                    Op::Restart => {
+                                        logger = RollingLogger::create_new(dir.clone(), name.to_string(), max_size, max_count);
+                                        continue;
+                                    }
+                                };
+                                let after = listing(&dir);
+                                if after.len() > mc {
+                                    problem = Some(format!("\"what\":\"file count\",\"got\":{},\"want\":\"<= {}\"", after.len(), mc));
+                                }
+                                // a file that received this write must have been below the limit before it (a file that is new or has
+                                // another size than before holds the write at its end: its size before the write is size - write)
+                                let old_current = before.get(&cur_name).copied();
+                                for (f, sz) in after.iter() {
+                                    if before.get(f) == Some(sz) {
+                                        continue;
+                                    }
+                                    // the renamed former current file keeps its size
+                                    if !before.contains_key(f) && Some(*sz) == old_current && *sz != w {
+                                        continue;
+                                    }
+                                    if *sz >= w && *sz - w >= max_size {
+                                        problem = Some(format!(
+                                            "\"what\":\"write appended to a file already at its size limit\",\"file\":\"{}\",\"size_before\":{},\"size_after\":{},\"write_bytes\":{},\"got\":\"{} bytes beyond the limit\",\"want\":\"a log file is beyond its limit by at most one write: size before the write < {}\"",
+                                            f, *sz - w, sz, w, sz - max_size, max_size
+                                        ));
+                                    }
+                                }
+                                if problem.is_some() {
+                                    break;
+                                }
+                            }
+                            if let Some(mut g) = guard {
+                                g.undo();
+                            }
+                            if let Some(p) = problem {
+                                println!(
+                                    "VXW-FAIL {{\"unit\":\"rolling_logger\",\"archiving_blocked_by\":\"{:?}\",\"max_count\":{},\"max_size\":{},\"archived_files_at_start\":{},\"current_file_at_start\":{},\"pattern\":\"{}\",\"ops_so_far\":\"{}\",{}}}",
+                                    how, max_count, max_size, mc - 1, cur, pname, history.join(" "), p
+                                );
+                            }
+                            let _ = fs::remove_dir_all(&dir);
+                        }
+                    }
+                }
+            }
+        }
+    }
+    if usable == 0 {
+        println!("VXW-NOTE C19 rolling logger: no way to make the archive step fail while appends work in this environment; dimension not exercised");
+    }
+    println!("VXW-DONE {}", n);
+}
+
 // what is found in the event directory at start
 #[derive(Clone, Copy, Debug)]
 enum Left {
